@@ -905,6 +905,7 @@ class PeriodicCallback:
         self.jitter = jitter
         self._running = False
         self._timeout: object = None
+        self._in_callback = False
 
     def start(self) -> None:
         """Starts the timer."""
@@ -933,6 +934,13 @@ class PeriodicCallback:
     async def _run(self) -> None:
         if not self._running:
             return
+        if self._in_callback:
+            # The previous invocation is still running (the callback was
+            # stopped and restarted in the meantime): skip this run.
+            self._schedule_next()
+            return
+        timeout = self._timeout
+        self._in_callback = True
         try:
             val = self.callback()
             if val is not None and isawaitable(val):
@@ -940,7 +948,11 @@ class PeriodicCallback:
         except Exception:
             app_log.error("Exception in callback %r", self.callback, exc_info=True)
         finally:
-            self._schedule_next()
+            self._in_callback = False
+            # If stop() and start() were called during the invocation the
+            # next run has been scheduled already.
+            if self._timeout is timeout:
+                self._schedule_next()
 
     def _schedule_next(self) -> None:
         if self._running:
